@@ -636,4 +636,37 @@ def Dest.applyAppend (d : Dest) : DOp → Dest
 /-- replay of an operation sequence (oldest first) on an `O_APPEND` file -/
 def Dest.runAppend (d : Dest) (ops : List DOp) : Dest := ops.foldl Dest.applyAppend d
 
+/-! ### what `Encode` stores back into the caller's `proto.FIT`, step by step (appended for C02's write-back clause)
+
+The assignments to `fit.FileHeader` / `fit.CRC` in the order the code makes them, on either strategy, under any fault
+schedule (a failing step returns with what has been assigned so far): `encodeFileHeader` sets `header.CRC` (computed from
+the running hash for a 14-byte header, 0 for a 12-byte one) before it writes; `fit.CRC = e.crc16.Sum16()` sits between
+`encodeMessages` and `encodeCRC`; `updateFileHeader` — direct-update strategy only, and only when the header's data size
+differs from the bytes written — sets `header.DataSize` and recomputes `header.CRC`; `calculateDataSize` sets
+`header.DataSize` before the header is written. `crcIn` is `fit.CRC` as the caller passed it. -/
+
+/-- the steps both strategies share, given the data size the header value holds when `encodeFileHeader` runs -/
+def encodeBodyWB (F : Faults) (o : Opts) (e : Enc) (h : Hdr) (ds : Nat) (ms : List WMsg) (crcIn : Nat) : WriteBack × Enc × Bool :=
+  let wb0 : WriteBack := ⟨h.size, h.protoVer, h.profileVer, ds, hdrCrcBack e.crc h ds, crcIn⟩
+  let r1 := encodeFileHeader F e h ds
+  if !r1.2 then (wb0, r1) else
+  let r2 := encodeMessages F o r1.1 ms
+  if !r2.2 then (wb0, r2) else
+  ({ wb0 with crc := r2.1.crc }, encodeCRC F r2.1)
+
+def encodeDirectWB (F : Faults) (o : Opts) (e : Enc) (f : FitIn) (crcIn : Nat) : WriteBack :=
+  let r := encodeBodyWB F o e f.hdr f.ds0 f.msgs crcIn
+  if !r.2.2 then r.1
+  else if f.ds0 = r.2.1.dataSize then r.1                       -- `if header.DataSize == e.dataSize { return nil }`
+  else { r.1 with dataSize := r.2.1.dataSize,
+                  hcrc := if f.hdr.size = 14 then hdrCrcBack r.2.1.crc f.hdr r.2.1.dataSize else r.1.hcrc }
+
+def encodeEarlyWB (F : Faults) (o : Opts) (e : Enc) (f : FitIn) (crcIn : Nat) : WriteBack :=
+  let dry := dryPass o e.es e.dataSize f.msgs
+  (encodeBodyWB F o (e.reset o) f.hdr dry.1 dry.2 crcIn).1
+
+/-- `Encode` after `validateMessages`: the caller's `fit.FileHeader` / `fit.CRC` when it returns -/
+def encodeWB (F : Faults) (o : Opts) (e : Enc) (f : FitIn) (crcIn : Nat) : WriteBack :=
+  if e.w.kind.direct then encodeDirectWB F o e f crcIn else encodeEarlyWB F o e f crcIn
+
 end Fit.Writer
